@@ -2,6 +2,7 @@ package main
 
 import (
 	"fmt"
+	"runtime"
 	"sort"
 	"strings"
 	"sync"
@@ -22,6 +23,7 @@ type scenario struct {
 	Name     string
 	Family   string // "async" | "readonly"
 	MaxBound int    // highest preemption bound to attempt
+	Delay    bool   // delay bounding: every departure from the default schedule costs 1 (many-thread scenarios)
 	Fine     bool   // library-internal yields (function entries, loop iterations) are scheduling points
 	Mk       func() *instance
 }
@@ -640,6 +642,109 @@ func fineScenarios(bound int) []scenario {
 				sc.Family, sc.Fine = "fine", true
 				sc.Name = "[library-internal yields] " + sc.Name
 				out = append(out, sc)
+			}
+		}
+	}
+	return out
+}
+
+
+// ---------- family (a'): larger containers under different GOMAXPROCS settings ----------
+// All interleavings are out of reach for 4..17 workers; these scenarios are explored up to a small
+// DELAY bound (every departure from the default schedule costs 1). They exist because the number of elements and GOMAXPROCS are inputs of the async
+// code (batching, chunking, worker pools would depend on them): the exactly-once / completion-barrier
+// oracle must hold for every size and every GOMAXPROCS value.
+func asyncLargeScenarios(bound int) []scenario {
+	var out []scenario
+	for _, n := range []int{4, 5, 9, 17} {
+		for _, gmp := range []int{1, 2, 4} {
+			n, gmp := n, gmp
+			for _, kind := range []string{"list.ForEachAsync", "list.MapAsync", "object.ForEachAsync", "object.MapAsync"} {
+				kind := kind
+				out = append(out, scenario{Name: fmt.Sprintf("%s n=%d GOMAXPROCS=%d", kind, n, gmp), Family: "async-large", MaxBound: bound, Delay: true, Mk: func() *instance {
+					runtime.GOMAXPROCS(gmp)
+					st := &asyncState{starts: map[string]int{}, ends: map[string]int{}}
+					want := map[string]bool{}
+					vals := make([]interface{}, n)
+					keys := make([]string, n)
+					for i := range vals {
+						vals[i] = i * 10
+						keys[i] = fmt.Sprintf("k%02d", i)
+					}
+					var body func()
+					isMap := strings.HasSuffix(kind, "MapAsync")
+					if strings.HasPrefix(kind, "list") {
+						l, twin := at.NewList(vals...), at.NewList(vals...)
+						for i, v := range vals {
+							want[fmt.Sprint(i)+"="+ident(v)] = true
+						}
+						body = func() {
+							var ok bool
+							var msg string
+							if isMap {
+								res := l.MapAsync(func(i int, v interface{}) interface{} {
+									st.add("s", fmt.Sprint(i), v)
+									rtYield()
+									st.add("e", fmt.Sprint(i), v)
+									return tagKV(fmt.Sprint(i), v)
+								})
+								exp := twin.Map(func(i int, v interface{}) interface{} { return tagKV(fmt.Sprint(i), v) })
+								ok = res != nil && res != l && res.Equals(exp)
+								if !ok {
+									msg = fmt.Sprintf("MapAsync returned %s, Map returns %s", safeStr(res), exp.String())
+								}
+							} else {
+								ret := l.ForEachAsync(func(i int, v interface{}) {
+									st.add("s", fmt.Sprint(i), v)
+									rtYield()
+									st.add("e", fmt.Sprint(i), v)
+								})
+								ok = ret == l
+							}
+							e := st.endCount()
+							st.mu.Lock()
+							st.endsAtReturn, st.returned, st.retSame, st.resOK = e, true, ok, msg
+							st.mu.Unlock()
+						}
+					} else {
+						o, twin := at.NewObject(), at.NewObject()
+						for i, k := range keys {
+							o.Set(k, vals[i])
+							twin.Set(k, vals[i])
+							want[k+"="+ident(vals[i])] = true
+						}
+						body = func() {
+							var ok bool
+							var msg string
+							if isMap {
+								res := o.MapAsync(func(k string, v interface{}) interface{} {
+									st.add("s", k, v)
+									rtYield()
+									st.add("e", k, v)
+									return tagKV(k, v)
+								})
+								exp := twin.Map(func(k string, v interface{}) interface{} { return tagKV(k, v) })
+								ok = res != nil && res != o && res.Equals(exp)
+								if !ok {
+									msg = "MapAsync result differs from Map"
+								}
+							} else {
+								ret := o.ForEachAsync(func(k string, v interface{}) {
+									st.add("s", k, v)
+									rtYield()
+									st.add("e", k, v)
+								})
+								ok = ret == o
+							}
+							e := st.endCount()
+							st.mu.Lock()
+							st.endsAtReturn, st.returned, st.retSame, st.resOK = e, true, ok, msg
+							st.mu.Unlock()
+						}
+					}
+					return &instance{Body: body, Oracle: asyncOracle(st, fmt.Sprintf("%s on %d entries with GOMAXPROCS=%d", kind, n, gmp), want, n, isMap),
+						Outcome: func() string { st.mu.Lock(); defer st.mu.Unlock(); return strings.Join(stripPtr(st.log), " ") }}
+				}})
 			}
 		}
 	}
